@@ -416,6 +416,7 @@ def handle (line : String) : String :=
       | "authz" => runAuthz j
       | "atten" => runAtten j
       | "determ" => runAuthz j
+      | "snapshot" => runAuthz j
       | "limits" => runLimits j
       | "chain" => runChain j
       | "sealops" => runSealOps j
